@@ -762,7 +762,8 @@ namespace svmon
           std_specified = applies = true; break;
         case OP_INSERT_COPY: case OP_INSERT_MOVE: case OP_EMPLACE:
           applies = std_specified = static_cast<size_t> (op.pos) == pre[op.t].size; break;
-        case OP_INSERT_RANGE: case OP_INSERT_ILIST:
+        case OP_INSERT_RANGE: case OP_INSERT_ILIST: case OP_INSERT_N:
+          // every way of inserting exactly one element at end (): insert (end (), first, first + 1), insert (end (), { x }), insert (end (), 1, x)
           applies = std_specified = (static_cast<size_t> (op.pos) == pre[op.t].size && op.count == 1); break;
         case OP_APPEND_RANGE: case OP_APPEND_ILIST: case OP_APPEND_COPY: applies = true; break;
         case OP_APPEND_MOVE: applies = true; src_too = true; break;
